@@ -45,7 +45,8 @@ def specs_for(ctx, idx, wd):
     c = [dict(lang="c", name="c_any", flags=[]),
          dict(lang="c", name="c_little", flags=["--target-endianness", "little"]),
          dict(lang="c", name="c_big_noassert", flags=["--target-endianness", "big"], asserts=False),
-         dict(lang="c", name="c_any_gcc", flags=[], kind="gcc")]
+         dict(lang="c", name="c_any_gcc", flags=[], kind="gcc"),
+         dict(lang="c", name="c_ovr", flags=["--enable-override-variable-array-capacity"])]
     inc = os.path.join(wd, "userinc")
     os.makedirs(inc, exist_ok=True)
     with open(os.path.join(inc, "verif_vla.hpp"), "w") as f:
@@ -57,7 +58,7 @@ def specs_for(ctx, idx, wd):
            dict(lang="cpp", std="c++17", name="cpp17", flags=["--target-endianness", "little"]), dict(lang="cpp", std="c++20", name="cpp20", asserts=False), vla]
     py = [dict(lang="py", name="py")]
     if ctx.quick:
-        return [c[0], c[1 + i % 3], cpp[0], cpp[1 + i % 3]] + ([vla] if idx == "corpus" else []) + py
+        return [c[0], c[1 + i % 3], cpp[0], cpp[1 + i % 3]] + ([vla, c[4]] if idx == "corpus" else []) + py
     return c + cpp + py
 
 
